@@ -67,3 +67,15 @@ Proof. exact orders_match_source. Qed.
 Theorem written_args_conflict_free : forall c, installable c -> ~ KnownGenesisWithPeers c ->
   forall a b, In (a, b) CONFLICTS -> ~ (written c a /\ written c b).
 Proof. exact conflict_free_lemma. Qed.
+
+(* the run-time meaning of --network-id: each of the four protocol strings of ant-protocol/src/version.rs is
+   <prefix><truncated version>/<id>, with id = the configured network id, or 1 when none is configured.
+   (That antnode's main really sets the id before the first string is derived is established by running it:
+   the start-up hook reports the id and the strings the node holds.) *)
+Theorem network_id_reaches_protocol_strings : forall c,
+  Consts.protocol_str_names = ["IDENTIFY_NODE_VERSION_STR"; "IDENTIFY_CLIENT_VERSION_STR"; "REQ_RESPONSE_VERSION_STR"; "IDENTIFY_PROTOCOL_STR"] /\
+  protocol_strings c =
+    map (fun p => (p ++ Consts.ant_protocol_version_truncated ++ "/" ++ dec (effective_netid c))%string)
+        ["ant/node/"; "ant/client/"; "/ant/"; "ant/"] /\
+  (c_netid c = None -> effective_netid c = 1%N) /\ (forall n, c_netid c = Some n -> effective_netid c = n).
+Proof. exact protocol_strings_lemma. Qed.
